@@ -101,7 +101,9 @@ def sib_grid(tier):
                     d = disp
                     if mod == 0 and (sib & 7) == 5:
                         d = b'\x44\x33\x22\x11'
-                    for p in ((b'',) if tier == 'quick' else (b'', b'\x66')):
+                    # segment overrides in front of every SIB form: the default segment depends on the BASE register only
+                    # (ss for ebp/esp), so an override is redundant or meaningful depending on the roles
+                    for p in ((b'', b'\x36', b'\x3e') if tier == 'quick' else (b'', b'\x66', b'\x36', b'\x3e', b'\x26')):
                         tail = bytes([(mod << 6) | (reg << 3) | 4, sib]) + d + b'\x11\x22\x33\x44\x55'
                         yield (p + base + tail)[:16], (cell, p.hex(), mod, 4, sib, 'sibgrid')
 
